@@ -43,6 +43,13 @@ def check(repo: Repo) -> Result:
 
     r5 = res.rule("C03-R5", "units obtained by unit arithmetic keep the zero point of an offset scale (identity / inverse laws for degC built as 1 * degC)", floor=2)
     share(res, r5, "C08", lambda t: c08.refusal(repo, t), ["C08-R2"], want=lambda k: k.endswith(":surviving-offset"), min_keys=2)
+    from rules import c11
+
+    def _copy(t):
+        t.rule("C11-R4", "x")
+        c11.unit_copy_values(repo, t, "C11-R4")
+
+    share(res, r5, "C11", _copy, ["C11-R4"], want=lambda k: k == "Unit.copy:values")
     return res
 
 
@@ -279,8 +286,60 @@ def _em_reference(c):
     }
 
 
+def em_route(repo, res, r4):
+    """How _check_em_conversion uses the table: on every path that answers with a (target, partner unit, factor) triple,
+    either the unit stays in its own family (unit with a current in a system with a current unit: target from the
+    system, the unit itself, factor exactly 1.0), or the partner unit is the table's partner symbol *with the source's
+    SI prefix* and the factor is that same row's factor.  Path summaries with all locals substituted."""
+    from engine.sem import summarise
+
+    fn = repo.mod(UO).func("_check_em_conversion")
+    res.fn(fn)
+    unit = fn.params[0]
+    n = {"own-family": 0, "partner": 0}
+    bad = []
+    for x in summarise(fn, limit=20000):
+        if x.kind != "return" or x.value in ("()", "em_map"):
+            continue
+        v = ast.parse(x.value, mode="eval").body
+        if not (isinstance(v, ast.Tuple) and len(v.elts) == 3):
+            raise AnalysisError(f"{fn.where()}: _check_em_conversion returns something that is not a triple: {x.value[:80]}")
+        tgt, partner, fac = v.elts
+        if norm(tgt).startswith("unit_system") and "[" in norm(tgt):
+            n["own-family"] += 1
+            if not (norm(partner) == unit and isinstance(fac, ast.Constant) and fac.value == 1.0):
+                bad.append(("own-family", x.value[:120]))
+            continue
+        n["partner"] += 1
+        ok = isinstance(partner, ast.Call) and norm(partner.func) == "Unit" and partner.args
+        row = None
+        if ok:
+            a0 = partner.args[0]
+            atomic = x.has(f"{unit}.is_atomic", True)
+            if isinstance(a0, ast.BinOp) and isinstance(a0.op, ast.Add):
+                pre, name = a0.left, a0.right
+            else:
+                pre, name = None, a0
+            ok = isinstance(name, ast.Subscript) and isinstance(name.slice, ast.Constant) and name.slice.value == 1 and norm(name.value).startswith("em_conversions[")
+            if ok:
+                row = norm(name.value)
+                if atomic:
+                    ok = pre is not None and norm(pre).startswith("_split_prefix(str(") and norm(pre).endswith(")[0]")
+                else:
+                    ok = pre is None or (isinstance(pre, ast.Constant) and pre.value == "")
+        if ok:
+            ok = isinstance(fac, ast.Subscript) and isinstance(fac.slice, ast.Constant) and fac.slice.value == 2 and norm(fac.value) == row
+        if not ok:
+            bad.append(("partner", x.value[:160]))
+    if n["own-family"] < 1 or n["partner"] < 2:
+        raise AnalysisError(f"{fn.where()}: the answering paths of _check_em_conversion were not found ({n})")
+    res.check(not [b for b in bad if b[0] == "own-family"], "em-route:own-family", fn.where(), "a unit that carries a current, converted within a system that has a current unit, stays in its family: the answer is (the system's unit, the unit itself, 1.0) - a Gaussian factor here multiplies e.g. (1 mC).in_mks() and every charge constant of the imperial / planck systems by 3e9", "(unit_system[unit.dimensions], unit, 1.0)", [b[1] for b in bad if b[0] == "own-family"][:2], rid=r4)
+    res.check(not [b for b in bad if b[0] == "partner"], "em-route:partner-unit", fn.where(), "the partner unit of a cross-system conversion is the table's partner symbol with the source's SI prefix, and the factor is that row's: without the prefix mT -> G is off by 1000 and mT -> G -> mT does not return", "(target, Unit(prefix + row[1]), row[2])", [b[1] for b in bad if b[0] == "partner"][:2], rid=r4)
+
+
 def em_table(repo, res):
     r4 = res.rule("C03-R4", "EM conversion table: closed under reversal with reciprocal factors, pairs em_dimensions partners, factors equal the Gaussian-SI reference", floor=30)
+    em_route(repo, res, r4)
     t = Tables(repo)
     uo = repo.mod(UO)
     node = uo.assign("em_conversions")
@@ -344,4 +403,7 @@ MUTANTS = [
     Mutant("twin-keyword-form", ARR, "unyt_array.in_cgs", 'return self.in_base("cgs")', 'return self.in_base(unit_system="cgs")', (), benign=True),
     Mutant("base-equivalent-foreign-registry", UO, "Unit.get_base_equivalent", "        return Unit(new_units, registry=self.registry)", "        return new_units", ("C03-R1",)),
     Mutant("mul-offset-from-dimensionless-side", UO, "Unit.__mul__", "            if u.dimensions in (temperature, angle) and self.is_dimensionless:\n                base_offset = u.base_offset", "            if u.dimensions in (temperature, angle) and self.is_dimensionless:\n                base_offset = self.base_offset", ("C03-R5",)),
+    Mutant("em-target-branch-drops-prefix", UO, "_check_em_conversion", "            em_map = (to_unit, em_unit, em_info[2])", "            em_map = (to_unit, Unit(em_info[1], registry=registry), em_info[2])", ("C03-R4",)),
+    Mutant("em-own-family-scaled", UO, "_check_em_conversion", "em_map = (unit_system[unit.dimensions], unit, 1.0)", "em_map = (unit_system[unit.dimensions], unit, em_info[2])", ("C03-R4",)),
+    Mutant("unit-copy-drops-offset", UO, "Unit.copy", "return Unit(expr, base_value, base_offset, dimensions, registry)", "return Unit(expr, base_value=base_value, dimensions=dimensions, registry=registry)", ("C03-R5",)),
 ]
